@@ -16,6 +16,10 @@ func main() {
 	switch os.Args[1] {
 	case "seq":
 		err = runSeq(os.Args[2], os.Args[3])
+	case "pairs":
+		err = runPairs(os.Args[2], os.Args[3])
+	case "order":
+		err = runOrder(os.Args[2], os.Args[3])
 	case "sched":
 		err = runSched(os.Args[2], os.Args[3])
 	default:
